@@ -16,6 +16,7 @@ func init() {
 	register("sign", opSign)
 	register("cmpdist", opCmpDist)
 	register("cmpdist1", opCmpDist1)
+	register("signscale", opSignScale)
 }
 
 var colScales = [][3]int{
@@ -228,4 +229,30 @@ func opCmpDist1(raw json.RawMessage, o *Out) {
 	if o.nontrivial {
 		o.sample = map[string]any{"op": "cmpdist1", "x": c.X, "y": c.Y, "model": c.Want}
 	}
+}
+
+// opSignScale: two-scale world (Gen_SignScale): only the exact stage is defined for such
+// (far from unit length) vectors; it must return the sign of the exact determinant.
+func opSignScale(raw json.RawMessage, o *Out) {
+	var c struct {
+		M    [3][3]int
+		K    [3][3]int
+		Want int
+		Lead int
+	}
+	if err := json.Unmarshal(raw, &c); err != nil {
+		panic(err)
+	}
+	o.nontrivial = true
+	var p [3]s2.Point
+	for r := 0; r < 3; r++ {
+		p[r] = emb.ColScaled(emb.P3{c.M[r][0], c.M[r][1], c.M[r][2]}, [3]int{-520 * c.K[r][0], -520 * c.K[r][1], -520 * c.K[r][2]})
+	}
+	if g := int(s2.VerifExactSign(p[0], p[1], p[2], false)); g != c.Want {
+		o.Fail("signscale/exact-precision", "exactSign(perturb=false) of rows %v with exponents -520*%v = %d, exact sign %d (leading power %d)", c.M, c.K, g, c.Want, c.Lead)
+	}
+	if g := int(s2.VerifExactSign(p[1], p[2], p[0], false)); g != c.Want {
+		o.Fail("signscale/exact-precision-rotated", "exactSign of rotated rows %v exponents %v = %d, exact sign %d", c.M, c.K, g, c.Want)
+	}
+	o.sample = map[string]any{"op": "signscale", "m": c.M, "k": c.K, "want": c.Want}
 }
